@@ -266,14 +266,16 @@ C17(e) ==
              (IF RNegative(y) THEN {"C17.v_negative"} ELSE {})
              \cup (IF big THEN {}
                    ELSE LET den == RPhi(x -- t)
-                        IN  IF Near(den, Eps) THEN {}
+                        IN  \* at the guard itself (the code decides in doubles, the specification at 40 digits) either branch may
+                            \* have been taken: the value is then within 2 percent of the exact one, whichever it was
+                            IF Near(den, Eps) THEN (IF RWithin(y, VExact(x, t), "0.02" ** VExact(x, t)) THEN {} ELSE {"C17.v_off_at_guard"})
                             ELSE IF RLt(den, Eps) THEN (IF RWithin(y, VExact(x, t), "0.02" ** VExact(x, t)) THEN {} ELSE {"C17.v_asymptotic_off"})
                             ELSE (IF RelOrTiny(y, VExact(x, t), "1E-6") THEN {} ELSE {"C17.v_accuracy"}))
         [] name = "w" ->
              (IF RLt(y, RNeg(slack)) \/ RLt("1" ++ slack, y) THEN {"C17.w_range"} ELSE {})
              \cup (IF big THEN {}
                    ELSE LET den == RPhi(x -- t)
-                        IN  IF Near(den, Eps) THEN {}
+                        IN  IF Near(den, Eps) THEN (IF RWithin(y, WExact(x, t), "0.02" ** WExact(x, t)) THEN {} ELSE {"C17.w_off_at_guard"})
                             ELSE IF RLt(den, Eps) THEN (IF RWithin(y, WExact(x, t), "0.02" ** WExact(x, t)) THEN {} ELSE {"C17.w_asymptotic_off"})
                             ELSE (IF RelOrTiny(y, WExact(x, t), "1E-6") THEN {} ELSE {"C17.w_accuracy"}))
         [] name = "vt" ->
